@@ -443,6 +443,72 @@ let trace_main file =
   Printf.printf "SUMMARY cases=%d steps=%d unm=%d diffs=%d\n" st.cases st.steps st.unm st.diffs
 
 
+
+(* ======================= modeltrace: the model runs the script on its own ========================
+   Same input as trace mode.  Nothing is compared: every step is executed on the model at the start of
+   the step's clock bracket and printed in the trace format (step line, "=>" model reply, K lines of the
+   model's index), so that the property judges can be run on what the UNCHANGED code would have done on
+   a history on which the implementation has left the model. *)
+let modeltrace_main file =
+  let ic = open_in file in
+  let lines = ref [] in
+  (try while true do lines := input_line ic :: !lines done with End_of_file -> ());
+  let lines = Array.of_list (List.rev !lines) in
+  let n = Array.length lines in
+  let server = ref (Conn.server_new false) in
+  let active = ref false in
+  for i = 0 to n - 1 do
+    let l = lines.(i) in
+    let toks = split_ws l in
+    (match toks with
+     | "CASE" :: id :: be :: _ ->
+         active := true; server := Conn.server_new (be = "peb"); print_endline l
+     | "END" :: _ -> if !active then print_endline "END"; active := false
+     | ("OP" | "X") :: _ when !active ->
+         let rec split acc l = match l with
+           | "=>" :: r -> (List.rev acc, r)
+           | x :: r -> split (x :: acc) r
+           | [] -> (List.rev acc, []) in
+         let (lhs, _) = split [] toks in
+         let nl = List.length lhs in
+         let t0 = Z.of_string (List.nth lhs (nl - 2)) in
+         let emit s' reply =
+           server := s';
+           Printf.printf "%s => %s\n" (String.concat " " lhs) (String.concat " " reply);
+           List.iter print_endline (model_dump s'.Conn.s_db) in
+         (match lhs with
+          | "OP" :: conn :: name :: nargs :: rest ->
+              let name = name_untok name in
+              let nargs = int_of_string nargs in
+              let rest = if nargs = 0 then List.tl rest else rest in
+              let args = List.map (fun t -> bs (parse_tok t)) (take nargs rest) in
+              let c = nat_of_int (int_of_string conn) in
+              (match Conn.serve c (bs name) args (coqz_of_z t0) !server with
+               | None -> active := false; print_endline "END"
+               | Some (s', acts) -> emit s' (List.map act_token acts))
+          | "X" :: op :: arg :: _ ->
+              let d = !server.Conn.s_db in
+              let now = coqz_of_z t0 in
+              let r = match op with
+                | "GC" -> if Db.gc_modelled d then Some (Conn.put_db (Db.gc now d) !server) else None
+                | "FLUSH" -> Some (Conn.put_db (Db.flush now d) !server)
+                | "REOPEN" ->
+                    let d' = Db.open_scan (Db.close now d) in
+                    Some { Conn.s_db = d'; Conn.s_conns = []; Conn.s_registry = [] }
+                | "PROBE" ->
+                    let d' = List.fold_left (fun dd (name, _) -> snd (Api.api_type name now dd)) d d.Db.idx in
+                    Some (Conn.put_db d' !server)
+                | "FAULTS" ->
+                    let fl = List.init (String.length arg) (fun k -> arg.[k] = '1') in
+                    Some (Conn.put_db (Db.with_faults d (if arg = "-" then [] else fl)) !server)
+                | _ -> Some !server in
+              (match r with
+               | None -> active := false; print_endline "END"
+               | Some s' -> emit s' ["ok"])
+          | _ -> ())
+     | _ -> ())
+  done
+
 (* ======================= judge mode (implementation vs specification) ============== *)
 (* Per step: abstract the implementation's dump before the command, run the specification,
    compare the reply and the abstraction of the dump after the command. *)
@@ -1018,6 +1084,7 @@ let () =
   match Array.to_list Sys.argv with
   | _ :: "codec" :: file :: _ -> codec_main file
   | _ :: "trace" :: file :: _ -> trace_main file
+  | _ :: "modeltrace" :: file :: _ -> modeltrace_main file
   | _ :: "conc" :: file :: _ -> conc_main file
   | _ :: "block-run" :: file :: _ -> block_run file
   | _ :: "block-gen" :: seed :: count :: _ -> block_gen (int_of_string seed) (int_of_string count)
